@@ -71,6 +71,8 @@ const (
 	pkMapInt
 	pkCtxLike // a pointer type that embeds (and so implements) context.Context: an ordinary parameter
 	pkSliceInt8
+	pkUint8 // unsigned integer parameters: Go integers like the others
+	pkUint64
 	pkCount
 )
 
@@ -84,7 +86,7 @@ type c11Celsius float64
 
 var c11RC = &c11ReqCtx{Context: context.Background(), User: "u1"}
 
-var pkNames = []string{"string", "bool", "int", "int8", "int16", "int32", "int64", "float32", "float64", "interface{}", "*decimal.Big", "time.Time", "[]string", "[]int", "[]interface{}", "map[string]interface{}", "map[string]int", "*c11ReqCtx", "[]int8"}
+var pkNames = []string{"string", "bool", "int", "int8", "int16", "int32", "int64", "float32", "float64", "interface{}", "*decimal.Big", "time.Time", "[]string", "[]int", "[]interface{}", "map[string]interface{}", "map[string]int", "*c11ReqCtx", "[]int8", "uint8", "uint64"}
 
 var ifaceType = reflect.TypeOf((*interface{})(nil)).Elem()
 var errType = reflect.TypeOf((*error)(nil)).Elem()
@@ -93,7 +95,7 @@ var ctxType = reflect.TypeOf((*context.Context)(nil)).Elem()
 var pkTypes = []reflect.Type{
 	reflect.TypeOf(""), reflect.TypeOf(true), reflect.TypeOf(int(0)), reflect.TypeOf(int8(0)), reflect.TypeOf(int16(0)), reflect.TypeOf(int32(0)), reflect.TypeOf(int64(0)),
 	reflect.TypeOf(float32(0)), reflect.TypeOf(float64(0)), ifaceType, reflect.TypeOf((*decimal.Big)(nil)), reflect.TypeOf(time.Time{}),
-	reflect.TypeOf([]string(nil)), reflect.TypeOf([]int(nil)), reflect.TypeOf([]interface{}(nil)), reflect.TypeOf(map[string]interface{}(nil)), reflect.TypeOf(map[string]int(nil)), reflect.TypeOf((*c11ReqCtx)(nil)), reflect.TypeOf([]int8(nil)),
+	reflect.TypeOf([]string(nil)), reflect.TypeOf([]int(nil)), reflect.TypeOf([]interface{}(nil)), reflect.TypeOf(map[string]interface{}(nil)), reflect.TypeOf(map[string]int(nil)), reflect.TypeOf((*c11ReqCtx)(nil)), reflect.TypeOf([]int8(nil)), reflect.TypeOf(uint8(0)), reflect.TypeOf(uint64(0)),
 }
 
 var tailKinds = []int{pkString, pkBool, pkInt, pkInt32, pkInt64, pkF64, pkIface, pkDec}
@@ -191,7 +193,39 @@ func init() {
 		argv{kind: "arr", expr: "[mp, mp]", elems: []argv{{kind: "map"}, {kind: "map"}}},
 		argv{kind: "arr", expr: "($al = [1, 2], [$al, $al])", elems: []argv{{kind: "arr", elems: []argv{{kind: "num", num: "1"}, {kind: "num", num: "2"}}}, {kind: "arr", elems: []argv{{kind: "num", num: "1"}, {kind: "num", num: "2"}}}}},
 		argv{kind: "arr", goTyped: true, expr: "rc.twice", elems: []argv{{kind: "map"}, {kind: "map"}}},
+		argv{kind: "aliased", expr: "rc.inl", str: "1 2 3 4"},
+		argv{kind: "aliased", expr: "rc.selfp"},
+		argv{kind: "num", num: "255.9", expr: "(255.9)"},
+		argv{kind: "num", num: "256", expr: "(256)"},
+		argv{kind: "num", num: "-0.9", expr: "(-0.9)"},
+		argv{kind: "num", num: "18446744073709551615.5", expr: "(18446744073709551615.5)"},
+		argv{kind: "num", num: "18446744073709551616", expr: "(18446744073709551616)"},
 	)
+}
+
+// small-buffer layout: Items is cut from Inline, so the outer slice, its first struct and the inner slice
+// begin at one address
+type c11Buf struct {
+	Inline [4]int
+	Items  []int
+}
+
+func c11Inline() []c11Buf {
+	l := make([]c11Buf, 1)
+	l[0].Inline = [4]int{1, 2, 3, 4}
+	l[0].Items = l[0].Inline[:2]
+	return l
+}
+
+type c11Self struct {
+	A int
+	P *int
+}
+
+func c11SelfPtr() *c11Self {
+	t := &c11Self{A: 5}
+	t.P = &t.A
+	return t
 }
 
 type c11Rec struct {
@@ -229,6 +263,17 @@ func row(pk int, a argv) (int, interface{}) {
 			return vU, nil
 		}
 		return vF, nil
+	}
+	if a.kind == "aliased" {
+		// a value without any cycle in which a slice and the array it was cut from (or a pointer and the
+		// field it points to) share an address: it formats like any other value
+		if pk == pkString {
+			if a.str != "" {
+				return vD, containsAll(strings.Fields(a.str))
+			}
+			return vD, anyValue{}
+		}
+		return vU, nil
 	}
 	if a.kind == "ctxlike" {
 		switch pk {
@@ -330,6 +375,25 @@ func row(pk int, a argv) (int, interface{}) {
 			default:
 				return vD, nearestF64(a.num)
 			}
+		}
+		return vF, nil
+	case pkUint8, pkUint64:
+		switch a.kind {
+		case "null", "bool":
+			return vU, nil
+		case "nonfinite", "inf":
+			return vF, nil
+		case "num":
+			d, _ := ref.ParseDec(a.num)
+			t := ratTrunc(d.Rat())
+			bits := map[int]uint{pkUint8: 8, pkUint64: 64}[pk]
+			if t.Sign() < 0 || t.Cmp(new(big.Int).Lsh(big.NewInt(1), bits)) >= 0 {
+				return vF, nil // the truncated value is negative or too large for the parameter type
+			}
+			if pk == pkUint8 {
+				return vD, uint8(t.Uint64())
+			}
+			return vD, t.Uint64()
 		}
 		return vF, nil
 	case pkIface:
@@ -632,7 +696,9 @@ func judgeCall(c CallCase) *eng.Fail {
 	default:
 		if len(args) == 0 {
 			verdict = vU
-		} else if last := args[len(args)-1]; last.kind != "arr" {
+		} else if last := args[len(args)-1]; last.kind == "aliased" {
+			verdict = vU // a Go slice of structs / a pointer: what spreading it means is not fixed
+		} else if last.kind != "arr" {
 			verdict = vF // spread of a non-array
 		} else if last.goTyped && !(len(last.elems) > 0 && last.elems[0].kind == "num" && c.Tail != pkIface && c.Tail != pkBool && len(args)-1 == nf) {
 			verdict = vU // spreading a Go-typed slice of non-numbers (or over interface{}): element conversion is not fixed by the statement
@@ -654,7 +720,7 @@ func judgeCall(c CallCase) *eng.Fail {
 	invocations = invocations[:0]
 	data := map[string]interface{}{"host": makeHost(c.Fixed, c.Tail, c.Ctx, c.Ret), "mp": c11Map, "tm": c11Time,
 		"rc": map[string]interface{}{"nilsl": []string(nil), "nilany": []interface{}(nil), "ints": []int{65, 66}, "strs": []string{"p", "q"}, "twice": []map[string]interface{}{c11Map, c11Map},
-			"wide": []int{300, 1}, "i32s": []int32{72, 105}, "f64s": []float64{1.5, -2.5}, "anys": []interface{}{4, 7.5, int64(9007199254740993)}}, "np": (*int)(nil), "rcx": c11RC, "tml": c11TimeLocal,
+			"wide": []int{300, 1}, "i32s": []int32{72, 105}, "f64s": []float64{1.5, -2.5}, "anys": []interface{}{4, 7.5, int64(9007199254740993)}, "inl": c11Inline(), "selfp": c11SelfPtr()}, "np": (*int)(nil), "rcx": c11RC, "tml": c11TimeLocal,
 		"g": map[string]interface{}{"n16": int16(300), "u8": uint8(200), "u64": uint64(1) << 63, "i8": int8(-1), "dur": time.Duration(1500), "cel": c11Celsius(2.5), "celbig": c11Celsius(1e30), "u32": uint32(70000)}}
 	r := formula.NewRunner()
 	r.SetThis(data)
